@@ -17,20 +17,44 @@ import (
 	"mcverif/internal/load"
 )
 
+// MemoGet describes an accepted getter of a content-validated memo (props/memo.go): a hit hands out, as result i,
+// Results[i] — a term over the constant MemoMarker — applied to the argument the caller presents as witness.
+type MemoGet struct {
+	Witness int
+	Results map[int]*Expr
+}
+
+const MemoMarker = "<witness>"
+
+// SetMemoGetters installs the accepted memo getters and drops every cached origin expression, summary and effect list
+// (they may have been built while the getters were still opaque).
+func (w *World) SetMemoGetters(m map[*ssa.Function]*MemoGet) {
+	w.memoGet = m
+	w.exprCache = map[exprKey]*Expr{}
+	w.builders = nil
+	w.sumCache = map[*ssa.Function]*Expr{}
+	w.building = map[*ssa.Function]bool{}
+	w.plumb, w.plumbSum, w.outCache, w.pureMemo, w.effCache, w.initFields = nil, nil, nil, nil, nil, nil
+}
+
 type World struct {
-	pureMemo   map[*ssa.Function]bool
-	constBusy  map[*ssa.Function]bool
-	plumb      map[*ssa.Function]bool
-	plumbSum   map[*ssa.Function]*Expr
-	dynTargets map[ssa.CallInstruction][]*ssa.Function
-	addrTaken  map[string][]*ssa.Function
-	hooked     bool
-	initFields map[[2]any]*Expr
-	outCache   map[[2]any]*outSum
-	P          *load.Program
-	Prog       *ssa.Program
-	Funcs      []*ssa.Function // every SSA function (incl. closures, methods) of repo + fixture packages
-	inSet      map[*ssa.Function]bool
+	memoGet map[*ssa.Function]*MemoGet
+	// MemosInstalled / MemoNames: set by props.(*Ctx).InstallMemos
+	MemosInstalled bool
+	MemoNames      []string
+	pureMemo       map[*ssa.Function]bool
+	constBusy      map[*ssa.Function]bool
+	plumb          map[*ssa.Function]bool
+	plumbSum       map[*ssa.Function]*Expr
+	dynTargets     map[ssa.CallInstruction][]*ssa.Function
+	addrTaken      map[string][]*ssa.Function
+	hooked         bool
+	initFields     map[[2]any]*Expr
+	outCache       map[[2]any]*outSum
+	P              *load.Program
+	Prog           *ssa.Program
+	Funcs          []*ssa.Function // every SSA function (incl. closures, methods) of repo + fixture packages
+	inSet          map[*ssa.Function]bool
 
 	// named (non-interface) types declared in repo/fixture packages, for CHA
 	namedTypes []*types.Named
